@@ -650,8 +650,8 @@ impl Datamodel for RFsmExpressionDatamodel {
         let r = match self.execute_internal(script, false) {
             Ok(val) => match val.arc.lock().unwrap().deref() {
                 Data::Integer(v) => {
-                    // NaN Test
-                    Ok(!(v != v || v.abs() == 0))
+                    // An Integer can't be NaN. No "abs()" here: it would overflow for i64::MIN.
+                    Ok(*v != 0)
                 }
                 Data::Double(v) => Ok(!(v != v || v.abs() == 0f64)),
                 Data::Source(s) => Ok(!s.is_empty()),
